@@ -108,7 +108,7 @@ impl Report {
             bounds_reached: Mutex::new(vec![]),
             rule: Mutex::new(String::new()),
             max_depth: AtomicU64::new(0),
-            wall_cap_s: if tier.thorough() { 3000.0 } else { 100.0 },
+            wall_cap_s: if tier.thorough() { 1500.0 } else { 45.0 },
         }
     }
 
